@@ -80,7 +80,10 @@ func Check(v any) error {
 	for i := 0; i < value.NumField(); i++ {
 		sf := value.Type().Field(i)
 
-		if strings.HasPrefix(sf.Tag.Get("api"), "rel,") {
+		// A relationship tag is "rel,<type>" or "rel,<type>,<inverse>". A
+		// bare "rel" is treated as a relationship by Wrap and BuildType
+		// too, so it has to be checked (and rejected) here as well.
+		if sf.Tag.Get("api") == "rel" || strings.HasPrefix(sf.Tag.Get("api"), "rel,") {
 			s := strings.Split(sf.Tag.Get("api"), ",")
 
 			if len(s) < 2 || len(s) > 3 {
